@@ -5,7 +5,7 @@ from checks.c17 import bounded_to_check
 
 
 def run(pid, level, tier, contracts_mod, programs, funcs, bounded_script, bounded_name, bounded_rule,
-        trust=(), assume=(), explanation='', timeout_ms=(30000, 120000), bounded_timeout=(900, 3400), post=None):
+        trust=(), assume=(), explanation='', timeout_ms=(30000, 120000), bounded_timeout=(900, 3400), post=None, extra=()):
     chk = Check(pid, level, tier)
     for q in funcs:
         chk.function_under_contract(q)
@@ -13,6 +13,9 @@ def run(pid, level, tier, contracts_mod, programs, funcs, bounded_script, bounde
         res = run_programs('contracts.' + contracts_mod.__name__.split('.')[-1], programs,
                            timeout_ms=timeout_ms[0] if tier == 'quick' else timeout_ms[1])
         absorb(chk, res, getattr(contracts_mod, 'replay', None), prefix=pid + '/')
+    for mod, progs in extra:          # obligation programs shared with another property's contracts module
+        res = run_programs('contracts.' + mod.__name__.split('.')[-1], progs, timeout_ms=timeout_ms[0] if tier == 'quick' else timeout_ms[1])
+        absorb(chk, res, getattr(mod, 'replay', None), prefix=pid + '/')
     scripts = bounded_script if isinstance(bounded_script, (list, tuple)) else [bounded_script]
     names = bounded_name if isinstance(bounded_name, (list, tuple)) else [bounded_name]
     rules = bounded_rule if isinstance(bounded_rule, (list, tuple)) else [bounded_rule]
